@@ -262,15 +262,15 @@ func cliLexical(c *runner.Cfg, res *report.Result, sc *sg.Scratch) {
 		return
 	}
 	texts := map[string]string{
-		"unterminated_comment":  "message M { a int32 1; } /* never closed",
-		"nul_byte":              "message M { a int32 1; }\x00",
-		"char_literal":          "message A { a int32 1; } 'x' message B { b int32 1; }",
-		"float_literal":         "message A { a int32 1; } 1.5 message B { b int32 1; }",
-		"raw_string":            "message A { a int32 1; } `raw` message B { b int32 1; }",
-		"integer_out_of_range":  "message M { a int32 99999999999999999999; }",
-		"hex_integer":           "message M { a int32 0x10; }",
-		"unterminated_string":   "options ( go_package=\"abc )\nmessage M { a int32 1; }",
-		"valid_control":         "message M { a int32 1; }",
+		"unterminated_comment": "message M { a int32 1; } /* never closed",
+		"nul_byte":             "message M { a int32 1; }\x00",
+		"char_literal":         "message A { a int32 1; } 'x' message B { b int32 1; }",
+		"float_literal":        "message A { a int32 1; } 1.5 message B { b int32 1; }",
+		"raw_string":           "message A { a int32 1; } `raw` message B { b int32 1; }",
+		"integer_out_of_range": "message M { a int32 99999999999999999999; }",
+		"hex_integer":          "message M { a int32 0x10; }",
+		"unterminated_string":  "options ( go_package=\"abc )\nmessage M { a int32 1; }",
+		"valid_control":        "message M { a int32 1; }",
 	}
 	for name, text := range texts {
 		dir := filepath.Join(sc.Schemas, "cli", name)
